@@ -350,6 +350,56 @@ def run_machine(machine_cls, max_examples, steps, shard=0):
     )
 
 
+# --------------------------------------------------------------------------- coverage-guided fuzzing
+def fuzz(acc, target, fn, runs, nproc=None, max_len=64, corpus_seeds=()):
+    """Run the atheris target `target` of this property in nproc parallel campaigns (own seed,
+    own fresh corpus and output directory each; odd campaigns start from a few valid inputs,
+    even ones from the empty corpus).  Violations found are re-run in-process through the plain
+    check function so that they are bucketed, shrunk and replayable like any other case."""
+    import subprocess
+
+    nproc = nproc or NPROC
+    try:
+        sys.path.append(os.path.join(ROOT, ".deps"))
+        import atheris  # noqa: F401
+    except ImportError:
+        acc.note(f"atheris_{target}", "skipped: atheris not importable")
+        return
+    procs = []
+    for i in range(nproc):
+        out = fresh_dir(f"fuzz-{target}-{i}")
+        corpus = os.path.join(out, "corpus")
+        os.makedirs(corpus)
+        if i % 2 == 1:
+            for j, blob in enumerate(corpus_seeds):
+                with open(os.path.join(corpus, f"seed{j}"), "wb") as fh:
+                    fh.write(bytes(blob))
+        cmd = [sys.executable, "-B", os.path.join(ROOT, "pv", "fuzz", "target.py"), acc.prop, target, out,
+               f"-runs={runs}", f"-seed={SEED * 1000 + i + 1}", f"-max_len={max_len}", "-print_final_stats=0", corpus]
+        env = dict(os.environ, PV_ROOT=ROOT, PYTHONHASHSEED="0")
+        procs.append((out, subprocess.Popen(cmd, env=env, stdout=subprocess.DEVNULL, stderr=subprocess.DEVNULL, cwd=out)))
+    total = {"executions": 0, "nontrivial": 0, "known": 0, "campaigns": 0}
+    for out, proc in procs:
+        code = proc.wait()
+        total["campaigns"] += 1
+        try:
+            with open(os.path.join(out, "stats.json")) as fh:
+                st = json.load(fh)
+            for k in ("executions", "nontrivial", "known"):
+                total[k] += st.get(k, 0)
+        except (OSError, ValueError):
+            pass
+        vpath = os.path.join(out, "violation.json")
+        if os.path.exists(vpath):
+            with open(vpath) as fh:
+                payload = json.load(fh)
+            acc.record(payload["check"], fn[payload["check"]], payload["case"])
+        elif code not in (0,):
+            raise HarnessError(f"atheris campaign {target} in {out} ended with exit code {code} without a violation file")
+    acc.note(f"atheris_{target}", total)
+    acc.count(f"atheris_{target}_executions", total["executions"])
+
+
 # --------------------------------------------------------------------------- shrinking
 def _is_perm_list(x):
     return isinstance(x, list) and len(x) > 0 and all(type(v) is int for v in x) and sorted(x) == list(range(len(x)))
